@@ -302,3 +302,31 @@ def accept_fixed(a: int, b: int, c: int, d: int, e: int, k: int, data: bytes) ->
 
 def explain(cname, args, famv):
     return 'reference codec vt/refs/ps38.py disagrees with the library; replay prints nothing more (see condition source)'
+
+
+def _utf8_ok(s):
+    """text that has a UTF-8 encoding (no lone surrogates)"""
+    for ch in s:
+        if 0xD800 <= ord(ch) <= 0xDFFF:
+            return False
+    return True
+
+
+@cond(bounds='User Identity sub-item (PS3.7 D.3.3.7: fields are UTF-8) emitted inside an A-ASSOCIATE-RQ between two other '
+             'sub-items: primary and secondary field with symbolic CONTENT of 0..2 characters each over the whole Unicode '
+             'range (1-4 byte encodings; lone surrogates excluded), identity type / response flag symbolic bytes; the '
+             'enclosing item, user-information and PDU length fields must count bytes, not characters',
+      timeout=240, thorough_timeout=900)
+def emit_user_identity_text(p: str, q: str, a: int, b: int) -> bool:
+    """
+    pre: len(p) <= 2 and len(q) <= 2 and _utf8_ok(p) and _utf8_ok(q) and 0 <= a <= 255 and 0 <= b <= 255
+    post: _
+    """
+    s = udi.UserIdentityNegotiationSubItem(p, q, user_identity_type=a, positive_response_req=b)
+    x = rq_with([udi.MaximumLengthSubItem(16384), s, udi.ImplementationVersionNameSubItem('V1')])
+    ok = emits(x)
+    # and the converse: the reference encoding of the same value is accepted
+    v = pdu_to_ref(x)
+    ok = ok and accepts(pdu.AAssociateRqPDU, v)
+    deep(ok and len(p) == 2 and ord(p[0]) > 0x7FF and len(q) == 1 and ord(q[0]) > 127)
+    return ok
